@@ -318,15 +318,14 @@ func checkC08(e *Engine, r *Report) {
 		// classify the three arms by the comparison of from.Size() with cnt
 		sizeCmp := func(lt, eq bool) Assumption {
 			return func(cond ssa.Value) (bool, bool) {
-				b, ok := cond.(*ssa.BinOp)
-				if !ok || paramIndex(b.Y) != 2 {
+				_, y, op, ok := cmpOriented(cond, func(v ssa.Value) bool {
+					call, ok := v.(*ssa.Call)
+					return ok && callObj(call.Common()) != nil && callObj(call.Common()).Name() == "Size"
+				})
+				if !ok || paramIndex(y) != 2 {
 					return false, false
 				}
-				call, ok := b.X.(*ssa.Call)
-				if !ok || callObj(call.Common()) == nil || callObj(call.Common()).Name() != "Size" {
-					return false, false
-				}
-				switch b.Op {
+				switch op {
 				case token.LSS:
 					return true, lt
 				case token.EQL:
@@ -643,8 +642,10 @@ func exactSizeGuard(e *Engine, fn *ssa.Function, x ssa.Value, roots func(ssa.Val
 	ok := false
 	AllInstrs(fn, func(in ssa.Instruction) {
 		if b, isB := in.(*ssa.BinOp); isB && (b.Op == token.NEQ || b.Op == token.EQL) {
-			if sz, isC := b.X.(*ssa.Call); isC && callObj(sz.Common()) != nil && callObj(sz.Common()).Name() == "Size" && sz.Common().Args[0] == x && roots(b.Y)[fCnt] {
-				ok = true
+			for _, pr := range [][2]ssa.Value{{b.X, b.Y}, {b.Y, b.X}} {
+				if sz, isC := pr[0].(*ssa.Call); isC && callObj(sz.Common()) != nil && callObj(sz.Common()).Name() == "Size" && sz.Common().Args[0] == x && roots(pr[1])[fCnt] {
+					ok = true
+				}
 			}
 		}
 	})
